@@ -527,6 +527,14 @@ fn connack_policy(w: &mut World, conn: usize, clean_start: bool, need_id: bool) 
             m.state = 2;
         }
     }
+    // C05 quantifies over *arbitrary* session-present answers: now and then the broker answers
+    // "session present" to a CONNECT that asked for a clean start (out of specification, but a
+    // client that reports what the broker said must report Reconnected). The client asks for a
+    // clean start only before its first successful CONNACK, so nothing is in flight either way.
+    if !sp && clean_start && chance(w, t, 61, 12) {
+        sp = true;
+        w.fault("broker_session_present_on_clean_start");
+    }
     w.broker_has_session = true;
 
     let mut props: Vec<Prop> = Vec::new();
